@@ -709,6 +709,10 @@ func frozenFuncValueX10(x ssa.Value, depth int) bool {
 		if callee == nil || len(callee.Blocks) == 0 || callee.Signature.Results().Len() != 1 {
 			return false
 		}
+		// a function the factory is given (`wrap("name", func…)`) is, for this call, the argument
+		// of this call (ext_y5.go)
+		pop := pushFactoryArgsY5(callee, x.Common().Args)
+		defer pop()
 		n := 0
 		for _, r := range returns(callee) {
 			if len(r.Results) != 1 || !frozenFuncValueX10(r.Results[0], depth+1) {
@@ -717,6 +721,12 @@ func frozenFuncValueX10(x ssa.Value, depth int) bool {
 			n++
 		}
 		return n > 0
+	case *ssa.Parameter:
+		if arg, outer, ok := factoryArgY5(x); ok {
+			defer outer()()
+			return frozenFuncValueX10(arg, depth+1)
+		}
+		return false
 	case *ssa.MakeClosure:
 		fn, ok := x.Fn.(*ssa.Function)
 		if !ok {
